@@ -7,7 +7,7 @@ set -u
 cd "$(dirname "$0")"
 SIM="$(pwd)/target/sim/release/abasic-sim"
 IDS=("$@")
-[ ${#IDS[@]} -eq 0 ] && IDS=(C01 C03 C04 C07 C08 C09 C10 C11 C14 C16 C17 C18 C19)
+[ ${#IDS[@]} -eq 0 ] && IDS=(C01 C03 C04 C07 C08 C09 C10 C11 C14 C15 C16 C17 C18 C19)
 N="${VERIF_DET_RUNS:-2000}"
 SEED="${VERIF_SEED:-20260927}"
 rc=0
